@@ -20,6 +20,25 @@ def is_apply(name):
     return name.endswith('::apply_chrony')
 
 
+def fsm_step_input(ef):
+    """if the effect (opaque or inlined call) is a step of the status state machine -- a daemon function
+    that receives a ChronyClockStatus by value after its receiver -- return that status value"""
+    if ef['kind'] not in ('call', 'inline') or ef.get('tracing'):
+        return None
+    callee = ef['callee']
+    if 'clock_bound_d' not in callee or len(ef['args']) < 2:
+        return None
+    if callee.split('::')[-1] in ('eq', 'ne', 'clone', 'fmt', 'from'):
+        return None
+    a = ef['args'][1]
+    if a[0] == 'agg' and a[1].endswith('ChronyClockStatus') and ef['args'][0][0] in ('ref', 't', 'sym', 'agg'):
+        recv = fmt(ef['args'][0])
+        if 'tracking' in recv and 'shm_clock_state' not in recv and 'state' not in recv:
+            return None
+        return a
+    return None
+
+
 def is_value(name):
     return name.endswith('FSMState::value') or name.endswith('as shm_writer::clock_state_fsm::FSMState>::value')
 
@@ -74,26 +93,42 @@ class UpdaterModel:
 
     @staticmethod
     def updater_field(v):
-        """name of the updater field if v is a plain read of one (leaf rooted in the updater)"""
-        if v[0] == 't' and v[1] == 'field' and v[2][0][0] == 'sym':
-            return v[2][1]
-        if v[0] == 't' and v[1] == 'field' and v[2][0][0] == 't' and v[2][0][1] == 'deref' and v[2][0][2][0][0] == 'sym':
-            return v[2][1]
+        """dotted path of the updater field if v is a plain read of one (leaf rooted in the updater),
+        e.g. 'bound_nsec' or 'sample.as_of' for a field of a nested private struct"""
+        names = []
+        while v[0] == 't' and v[1] == 'field':
+            names.append(str(v[2][1]))
+            v = v[2][0]
+        if not names:
+            return None
+        if v[0] == 'sym' or (v[0] == 't' and v[1] == 'deref' and v[2][0][0] == 'sym'):
+            return '.'.join(reversed(names))
         return None
 
     def classify(self, p):
         info = {'path': p, 'msg': None, 'msg_name': None, 'recv_err': False, 'applied': [], 'records': [],
-                'published': [], 'stores': {}, 'writes': 0, 'payload': None}
+                'published': [], 'stores': {}, 'writes': 0, 'payload': None, 'steps': [], 'step_callees': set()}
         recv_term = None
         for n, ef in enumerate(p.effects):
+            if ef['kind'] == 'inline':
+                a = fsm_step_input(ef)
+                if a is not None:
+                    if ef['site'][0] not in info['step_callees']:
+                        info['applied'].append(a[2])
+                        info['steps'].append(None)
+                    info['step_callees'].add(ef['callee'])
+                continue
             if ef['kind'] != 'call' or ef['tracing']:
                 continue
             nm = ef['callee']
             if is_recv(nm) and recv_term is None:
                 recv_term = T('call', nm, n, *ef['args'])
-            elif is_apply(nm):
-                a = ef['args'][1]
-                info['applied'].append(a[2] if a[0] == 'agg' else fmt(a))
+            elif fsm_step_input(ef) is not None:
+                a = fsm_step_input(ef)
+                if ef['site'][0] not in info['step_callees']:
+                    info['applied'].append(a[2])
+                info['steps'].append(T('call', nm, n, *ef['args']))
+                info['step_callees'].add(nm)
             elif is_shm_write(nm):
                 info['writes'] += 1
                 ceb = ef['pointees'][1] if len(ef['pointees']) > 1 else None
@@ -113,13 +148,23 @@ class UpdaterModel:
                     else:
                         info['msg'] = 'other'
                         info['msg_name'] = 'other(not %s)' % sorted(val)
-        # field stores into the updater at the end of the path
+        # field stores into the updater at the end of the path (dotted paths; struct values are expanded)
         for key, v in p.state.store.items():
             base, proj = key
-            if proj and proj[-1][0] == 'f' and (base[0] == 'S' or (base[0] == 'L' and base[1] == 0 and base[2] <= self.dispatch.argc)):
-                if len(proj) == 1:
-                    info['stores'][proj[-1][2]] = v
+            if proj and all(e[0] == 'f' for e in proj) and (base[0] == 'S' or (base[0] == 'L' and base[1] == 0 and base[2] <= self.dispatch.argc)):
+                if base[0] == 'S' and not (base[1][0] == 'sym'):
+                    continue
+                self.expand_store(info['stores'], '.'.join(str(e[2] if e[2] is not None else e[1]) for e in proj), v)
         return info
+
+    def expand_store(self, out, path, v):
+        out[path] = v
+        if v[0] == 'agg' and v[2] is not None and v[3]:
+            adt = self.engine.find_adt(v[1])
+            if adt and adt['kind'] == 'struct':
+                names = [f['name'] for f in adt['variants'][0]['fields']]
+                for nm, f in zip(names, v[3]):
+                    self.expand_store(out, path + '.' + nm, f)
 
     # ------------------------------------------------------------ FSM tables
     def fsm_tables(self, chk):
@@ -136,7 +181,7 @@ class UpdaterModel:
                         for f in p.value[3]:
                             if f[0] == 'agg' and f[1].endswith('ClockStatus'):
                                 values[b.impl_self] = f[2]
-        bodies = [b for b in fb.bodies(common.DAEMON) if b.name == 'transition' and (b.impl_trait or '').endswith('FSMTransition')]
+        bodies = [b for b in fb.bodies(common.DAEMON) if b.name == 'transition' and 'ShmClockState' in (b.impl_self or '')]
         for b in bodies:
             chk.saw(b)
             eng = common.mk_engine(fb)
@@ -162,7 +207,7 @@ class UpdaterModel:
                     rows[inp] = tgt
             trans[b.impl_self] = rows
         # value(): blanket impl returns the clock_status field
-        vb = [b for b in fb.bodies(common.DAEMON) if b.name == 'value' and (b.impl_trait or '').endswith('FSMState')]
+        vb = [b for b in fb.bodies(common.DAEMON) if b.name == 'value' and 'ShmClockState' in (b.impl_self or '')]
         passthrough = False
         for b in vb:
             chk.saw(b)
@@ -170,7 +215,11 @@ class UpdaterModel:
             for p in eng.run(b):
                 if p.kind == 'return' and fmt(p.value).endswith('clock_status'):
                     passthrough = True
-        ab = [b for b in fb.bodies(common.DAEMON) if b.name == 'apply_chrony' and (b.impl_trait or '').endswith('FSMState')]
+                elif p.kind == 'return' and p.value[0] == 'agg' and p.value[1].endswith('ClockStatus') and not p.conds:
+                    # per-state value(): the state type itself determines the status
+                    values[b.impl_self] = p.value[2]
+                    passthrough = True
+        ab = [b for b in fb.bodies(common.DAEMON) if b.name == 'apply_chrony']
         delegates = False
         for b in ab:
             chk.saw(b)
@@ -214,6 +263,7 @@ class UpdaterModel:
                                 chk.saw(b)
                                 for p in common.mk_engine(fb).run(b):
                                     if p.kind == 'return' and p.value[0] == 'agg':
+                                        init = (p.value[1], None)
                                         for f in p.value[3]:
                                             if f[0] == 'agg' and f[1].endswith('ClockStatus'):
                                                 init = (p.value[1], f[2])
